@@ -549,6 +549,13 @@ class Machine:
         if k == 'tuple': return Agg('tuple', [s.operand(st, fr, x) for x in rv[1]]) if rv[1] else UNIT
         if k == 'array': return Agg('array', [s.operand(st, fr, x) for x in rv[1]])
         if k == 'struct':
+            m = re.match(r'^(.+)::(\w+)$', rv[1])
+            if m:
+                en = type_head(m.group(1))
+                if en in s.enums and m.group(2) in s.enums[en]:
+                    return mk_enum(en, m.group(2), [s.operand(st, fr, x) for x in rv[3]])
+            en = s._enum_by_hint(type_head(rv[1]))
+            if en: return mk_enum(en, type_head(rv[1]), [s.operand(st, fr, x) for x in rv[3]])
             return Agg(type_head(rv[1]), [s.operand(st, fr, x) for x in rv[3]])
         if k == 'ctor':
             path, args = rv[1], rv[2]
@@ -557,6 +564,8 @@ class Machine:
                 en = type_head(m.group(1))
                 if en in s.enums and m.group(2) in s.enums[en]:
                     return mk_enum(en, m.group(2), [s.operand(st, fr, x) for x in (args or [])])
+            en = s._enum_by_hint(path) if '::' not in path else None
+            if en: return mk_enum(en, path, [s.operand(st, fr, x) for x in (args or [])])
             if args is None:
                 r = s.env.const(s, path)
                 if r is not None: return r
@@ -566,6 +575,15 @@ class Machine:
         if k == 'len':
             root, path = s.resolve(st, fr, rv[1]); v = s.load(st, root, path); return I(len(v.f))
         raise Unmodelled('rvalue ' + repr(rv))
+
+    hint = None
+
+    def _enum_by_hint(s, variant):
+        """an unqualified variant name (re-exported enum): the enum is the head of the destination's declared type"""
+        if s.hint:
+            en = type_head(s.hint)
+            if en in s.enums and variant in s.enums[en]: return en
+        return None
 
     def discriminant(s, v):
         if not isinstance(v, Agg): raise InternalError(f'discriminant of {v!r}')
@@ -628,6 +646,8 @@ class Machine:
         for sm in stmts:
             k = sm[0]
             if k == 'assign':
+                if sm[2][0] in ('ctor', 'struct'):
+                    d = sm[1]; s.hint = d[2] if d[2] is not None else (f.locals.get(d[0]) or (f.ret if d[0] == '_0' else None)) if not d[1] else d[2]
                 val = s.rvalue(st, fr, sm[2]); root, path = s.resolve(st, fr, sm[1]); s.store(st, root, path, val)
             elif k == 'nop':
                 pass
@@ -722,7 +742,8 @@ class Machine:
         if outs is not None:
             s.stats.models[model_key(callee)] = s.stats.models.get(model_key(callee), 0) + 1
             return s.apply_outcomes(outs, th.name)
-        fn = s.local_fn(callee)
+        cc = th.stack[-1].fn.crate if th.stack and th.stack[-1].kind == 'mir' else None
+        fn = s.local_fn(callee, cc)
         if fn is None: raise Unmodelled('call ' + callee)
         s.push_mir(st, th, fn, args)
         return None
@@ -926,11 +947,12 @@ class Machine:
         return out
 
     # ---------------- call resolution
-    def local_fn(s, callee):
-        if callee in s._resolve_cache: return s._resolve_cache[callee]
-        r = s._local_fn(callee); s._resolve_cache[callee] = r; return r
+    def local_fn(s, callee, caller_crate=None):
+        key = (callee, caller_crate)
+        if key in s._resolve_cache: return s._resolve_cache[key]
+        r = s._local_fn(callee, caller_crate); s._resolve_cache[key] = r; return r
 
-    def _local_fn(s, callee):
+    def _local_fn(s, callee, caller_crate=None):
         if callee in s.fns: return callee
         mq = re.match(r'^<(.+) as (.+?)>::(\w+)(::<.*>)?$', callee)
         trait = None
@@ -943,6 +965,16 @@ class Machine:
             last = segs[-1]; tyname = segs[-2] if len(segs) >= 2 else None
         cands = list(s.by_last.get(last, []))
         if not cands: return None
+        # a path that starts with a crate name resolves inside that crate
+        crates = {s.fns[c].crate for c in cands}
+        if len(crates) > 1:
+            first = (mq.group(1) if mq else callee).lstrip('&<').split('::')[0].strip()
+            if first in crates:
+                cands = [c for c in cands if s.fns[c].crate == first]
+            else:
+                own = [c for c in cands if s.fns[c].crate == (caller_crate or s.env.home_crate())]
+                if own: cands = own
+            if len(cands) == 1: return cands[0]
         hint = s.env.resolve_hint(callee)
         if hint: cands = [c for c in cands if hint in c]
         if not mq:
@@ -955,6 +987,13 @@ class Machine:
             txt = (f.params[0][1] if f.params else '') + ' -> ' + f.ret
             return tyname is not None and re.search(r'(?<![\w])' + re.escape(tyname) + r'(?![\w])', txt) is not None
         c2 = [c for c in cands if mentions(s.fns[c])]
+        if len(c2) > 1:
+            # the self type's module path (managed::config::PoolConfig) selects the impl's module
+            if mq: mod = re.sub(r'<.*$', '', mq.group(1).strip().lstrip('&')).rsplit('::', 1)[0] if '::' in mq.group(1) else None
+            else: mod = '::'.join(segs[:-2]) if len(segs) > 2 else None
+            if mod:
+                c4 = [c for c in c2 if c.startswith(mod + '::') or ('::' + mod + '::') in c]
+                if c4: c2 = c4
         if trait in ('Default', 'Clone', 'From', 'Into', 'Drop', 'Deref', 'DerefMut') and len(c2) > 1:
             # prefer bodies whose *return type / self* head is exactly tyname
             c3 = [c for c in c2 if type_head(s.fns[c].ret) == tyname or (s.fns[c].params and type_head(s.fns[c].params[0][1]) == tyname)]
